@@ -86,6 +86,7 @@ func TestC10(t *testing.T) {
 	functionLevel(r)
 	socketForms(r)
 	wssSNI(r)
+	blockWhileDialInFlight(r)
 	subnetSpellings(r)
 	subnetSpellingsAcrossRestart(r)
 	oddMasks(r)
